@@ -4,7 +4,23 @@ go 1.26.8
 
 require (
 	github.com/anishathalye/porcupine v1.3.0
+	github.com/dgraph-io/badger/v2 v2.0.3
 	github.com/vipnode/vipnode/v2 v2.0.0
+)
+
+require (
+	github.com/DataDog/zstd v1.4.1 // indirect
+	github.com/cespare/xxhash v1.1.0 // indirect
+	github.com/dgraph-io/ristretto v0.0.2 // indirect
+	github.com/dgryski/go-farm v0.0.0-20200201041132-a6ae2369ad13 // indirect
+	github.com/dustin/go-humanize v1.0.0 // indirect
+	github.com/golang/protobuf v1.4.2 // indirect
+	github.com/golang/snappy v0.0.1 // indirect
+	github.com/pkg/errors v0.9.1 // indirect
+	github.com/vipnode/ether v0.0.0-20181219204546-d717f248a245 // indirect
+	golang.org/x/net v0.0.0-20200602114024-627f9648deb9 // indirect
+	golang.org/x/sys v0.0.0-20200610111108-226ff32320da // indirect
+	google.golang.org/protobuf v1.24.0 // indirect
 )
 
 replace github.com/vipnode/vipnode/v2 => /repo
